@@ -87,6 +87,39 @@ func ruleA14(r *Run, p *Prog, rule string, rels map[string]bool, want []string) 
 		found[fname(fv)+"[]"] = true
 	}
 	for _, w := range want {
+		if strings.HasPrefix(w, "@") {
+			// "@F|G": the package-level word that the API functions F / G access atomically
+			// (identified by its accessor, not by its name)
+			ok := false
+			for _, fnm := range strings.Split(w[1:], "|") {
+				for rel := range rels {
+					f := p.Func(rel, fnm)
+					if f == nil {
+						continue
+					}
+					eachInstr(f, func(b *ssa.BasicBlock, i int, in ssa.Instruction) {
+						cc := callCommon(in)
+						if cc == nil || !isAtomicCall(cc) || len(cc.Args) == 0 {
+							return
+						}
+						switch x := cc.Args[0].(type) {
+						case *ssa.UnOp:
+							if g := loadedGlobal(x); g != nil && globals[g] {
+								ok = true
+							}
+						case *ssa.Global:
+							if globals[x] {
+								ok = true
+							}
+						}
+					})
+				}
+			}
+			if !ok {
+				r.Anchor(false, rule, "atomic word accessed by "+w[1:])
+			}
+			continue
+		}
 		if !found[w] {
 			r.Anchor(false, rule, "atomic variable "+w)
 		}
@@ -143,7 +176,18 @@ func ruleA14(r *Run, p *Prog, rule string, rels map[string]bool, want []string) 
 				}
 				bad := usedAtomically(x)
 				r.Ob(rule, FnName(f)+"/"+g.Name(), p.Pos(x.Pos()), bad == nil, true, tern(bad == nil, g.Name()+" accessed through sync/atomic", g.Name()+" is dereferenced without sync/atomic ("+instrString(bad)+")"))
+			case *ssa.Call:
+				// the address of a plain atomic word used directly as an operand
+				for ai, a := range x.Call.Args {
+					if g, ok := a.(*ssa.Global); ok && globals[g] && !isPointer(derefType(g.Type())) {
+						okc := ai == 0 && isAtomicCall(&x.Call)
+						r.Ob(rule, FnName(f)+"/"+g.Name(), p.Pos(x.Pos()), okc, true, tern(okc, g.Name()+" accessed through sync/atomic", "the address of "+g.Name()+" is handed to "+descr(x)+", not to sync/atomic"))
+					}
+				}
 			case *ssa.Store:
+				if g, ok := x.Val.(*ssa.Global); ok && globals[g] && !isPointer(derefType(g.Type())) {
+					r.Ob(rule, FnName(f)+"/"+g.Name()+"/escapes", p.Pos(x.Pos()), false, true, "the address of "+g.Name()+" is stored away: later accesses cannot be checked")
+				}
 				if g, ok := x.Addr.(*ssa.Global); ok && globals[g] && f.Name() != "init" {
 					r.Ob(rule, FnName(f)+"/"+g.Name()+"/reassign", p.Pos(x.Pos()), false, true, g.Name()+" is reassigned outside the package initialiser")
 				}
